@@ -3,6 +3,7 @@ use crate::{
     passes::{CfgError, GenerationPass},
 };
 use std::collections::HashSet;
+use std::rc::Rc;
 
 use super::HasGenKillInfo;
 
@@ -85,9 +86,22 @@ impl GenerationPass for LivenessPass {
                         | args;
                     changed |= node.set_live_in(live_in);
                     changed |= node.set_u_def(u_def);
-                } else if node.is_return() {
-                    // live_in[n] = live_in[n] U gen[n]
-                    let live_in = node.live_in() | node.gen_reg();
+                } else if node.is_return()
+                    || node
+                        .functions()
+                        .iter()
+                        .any(|func| Rc::ptr_eq(&func.exit(), &node))
+                {
+                    // The exit of a function accumulates the live-outs of all call sites.
+                    // (When functions overlap, the exit of one function can have been turned
+                    // into a jump by another one; it still has to accumulate, otherwise the
+                    // analysis oscillates forever.)
+                    // live_in[n] = live_in[n] U gen[n]   (U live_out[n] - kill[n] if it is a jump)
+                    let live_in = if node.is_return() {
+                        node.live_in() | node.gen_reg()
+                    } else {
+                        node.live_in() | node.gen_reg() | (node.live_out() - node.kill_reg())
+                    };
                     changed |= node.set_live_in(live_in);
 
                     // u_def[n] = AND u_def[s] for all s in prev[n]
